@@ -753,7 +753,7 @@ def gen_mixed_portfolio(rng, kinds=ALL_KINDS, g=None, n_assets=(2, 6), n_nodes=(
             base = pick(rng, ['contract', 'contract', 'transport'])
             if base == 'transport' and nn > 1:
                 n1, n2 = [nodes[int(i)] for i in rng.permutation(nn)[:2]]
-                a = gen_transport(rng, g, 'pe%d' % j, n1, n2, f, cost_key=(key if rng.random() < 0.5 else None), window=False, take=False)
+                a = gen_transport(rng, g, 'pe%d' % j, n1, n2, f, cost_key=(key if rng.random() < 0.5 else None), window=False, take=(rng.random() < 0.4))      # (also an extended transport with a take: rows of its own)
             else:
                 a = gen_contract(rng, g, 'pe%d' % j, pick(rng, nodes), f, key, window=False, take=False, dict_caps=False)
             a['periodicity'] = per
